@@ -116,7 +116,15 @@ static void t_logger2(int32_t t, struct qb_log_callsite *cs, struct timespec *ts
 
 static void t_close(int32_t t)
 {
-	if (free_mode) return;
+	if (free_mode) {
+		/* the target's close function ran: from here on its logger must not be called any more.  It takes its time,
+		 * as closing a file or a socket does, so a logging thread that was busy is by now waiting to go on. */
+		emit_lock();
+		vt_ev("CloseCb"); vt_res(); vt_end();
+		emit_unlock();
+		usleep(3000);
+		return;
+	}
 	step.closefn++;
 }
 
